@@ -63,6 +63,7 @@ type Op struct {
 	Ef    int      `json:"ef,omitempty"`
 	Alpha float64  `json:"alpha,omitempty"`
 	Expr  [][]FClause `json:"expr,omitempty"` // q_filter: OR of AND blocks (the AST the text in Q was rendered from)
+	Faults []OpFault `json:"faults,omitempty"` // faults that fire during this op (crash images, torn writes)
 	// Expect is set by generators that know the op must be rejected (C05).
 	Expect string `json:"expect,omitempty"`
 }
